@@ -219,7 +219,9 @@ def oracle_cow(run):
                 if replacing and v == handle.get(wm):
                     return "v%d destroyed while it is being published" % v
                 for u, h in handle.items():
-                    if h == v and not (u == tid and call.get(tid) in ("cancel", "release")):
+                    # a version whose release has already unlocked the writer mutex is committed, no longer a private copy
+                    # (its releasing thread may still be on its way out of release())
+                    if h == v and v not in committed and not (u == tid and call.get(tid) in ("cancel", "release")):
                         return "private copy v%d of a live write handle destroyed" % v
                 if handle.get(tid) == v and call.get(tid) == "release":
                     return "release destroyed its own new version v%d" % v
